@@ -2,7 +2,7 @@
 From Coq Require Import List String Ascii ZArith. Import ListNotations.
 From Coq Require Import List Bool.
 From SV Require Import Lib.Str Model.Types Model.Naming Model.Api Model.Back Proofs.GenProofs.
-From SV Require Import Model.FrontSmall Model.View Model.Front Proofs.WalkProofs Proofs.AttrProofs Proofs.WalkerTableProofs.
+From SV Require Import Model.FrontSmall Model.View Model.Front Proofs.WalkProofs Proofs.AttrProofs Proofs.WalkerTableProofs Proofs.ModuleProofs.
 
 (* the attribute block contains one entry per public attribute (type-variable attributes excepted), no more *)
 Theorem C03_class_attributes_once : forall classes rmap nc ats inner acc names s r s',
@@ -66,6 +66,18 @@ Proof. exact enum_child_is_table. Qed.
 Theorem C03_enum_test_is_the_source_test : forall c,
   is_enum_def c = existsb (fun b => match be_fullname b with Some f => mem_str f Gen.Tables.t_enum_base_names | None => false end) (cd_bases c).
 Proof. exact is_enum_def_is_table. Qed.
+(* GENERATOR SIDE, module level: the text of a module stub is its comment, header and import block followed by exactly one piece per
+   function, class and enum of the module record, in order; the piece of a function that is not public, and of a class that is
+   not public or derives from an exception, is empty, every other piece is the rendering of that very declaration (C03 and C04) *)
+Theorem C03_module_stub_inventory : forall classes rmap nc m s text pkg s',
+  module_string classes rmap nc m s = Ok ((text, pkg), s') ->
+  exists rx fs cs,
+    Forall2 (function_piece classes rmap nc rx) (m_functions m) fs /\
+    Forall2 (class_piece classes rmap nc rx) (m_classes m) cs /\
+    text = (match sds_docstring_description (m_doc m) [] with [] => [] | d => d ++ NL end) ++
+           module_header nc pkg ++ imports_string nc s' ++ cat fs ++ cat cs ++
+           cat (map (fun e => NL ++ enum_string nc e ++ NL) (m_enums m)).
+Proof. exact module_string_inventory. Qed.
 Print Assumptions C03_class_attributes_once.
 Print Assumptions C03_class_methods.
 Print Assumptions C03_front_module_inventory.
@@ -76,3 +88,4 @@ Print Assumptions C03_module_child_is_the_source_set.
 Print Assumptions C03_class_child_is_the_source_set.
 Print Assumptions C03_enum_child_is_the_source_set.
 Print Assumptions C03_enum_test_is_the_source_test.
+Print Assumptions C03_module_stub_inventory.
